@@ -27,6 +27,7 @@ def sh(cmd, cwd=None, timeout=900):
 
 def main():
     prop, sdir = sys.argv[1], os.path.abspath(sys.argv[2])
+    offset = int(sys.argv[3]) if len(sys.argv) > 3 else 0  # round 2 files change1..3 are filed as <PROP>-(k+offset)
     props = {json.loads(l)["id"]: json.loads(l) for l in open(os.path.join(VERIF, "properties.jsonl"))}
     for k in (1, 2, 3):
         diff = os.path.join(sdir, "change%d.diff" % k)
@@ -59,13 +60,13 @@ def main():
         rce, oute = sh(["python3-vt", os.path.join(VERIF, "tools", "seed_eval.py"), diff], cwd=VERIF)
         caught = [l for l in oute.splitlines() if l.startswith("CAUGHT BY")]
         fails = [l.strip() for l in oute.splitlines() if l.strip().startswith("FAIL ") or "ANALYSIS-ERROR" in l]
-        print("== %s-%d confirmed=%s | %s | %s" % (prop, k, confirmed, "; ".join(ran), caught[0] if caught else oute[-300:]))
+        print("== %s-%d confirmed=%s | %s | %s" % (prop, k + offset, confirmed, "; ".join(ran), caught[0] if caught else oute[-300:]))
         for f in fails[:8]:
             print("     " + f[:180])
         if not confirmed:
             print("   NOT FILED (demo tail): " + (out1 if rc0 == 0 else out0).strip()[-300:].replace("\n", " | "))
             continue
-        dst = os.path.join(VERIF, "seeded", "%s-%d" % (prop, k))
+        dst = os.path.join(VERIF, "seeded", "%s-%d" % (prop, k + offset))
         os.makedirs(dst, exist_ok=True)
         shutil.copy(diff, os.path.join(dst, "patch.diff"))
         shutil.copy(demo, os.path.join(dst, "demo.py"))
